@@ -39,16 +39,18 @@ SetStruct(f, st, fs) == new' = [new EXCEPT ![f].structs = (st :> fs) @@ @]
 SetSvc(f, s, ms)     == new' = [new EXCEPT ![f].services = (s :> ms) @@ @]
 KeepKeys(fn, keep) == [ k \in keep |-> fn[k] ]
 
+\* the new version has to compile: a field of struct type R only where the file defines R (c.thrift does not)
+TypeKnown(f, ty) == ty = "R" => "R" \in DOMAIN new[f].structs
 Edit ==
   /\ nedits < MaxEdits
   /\ nedits' = nedits + 1
   /\ \/ \E f \in DOMAIN new : \E st \in DOMAIN new[f].structs :
           LET fs == new[f].structs[st] IN
           \/ \E id \in {3, 7}, ty \in {"i32", "R"}, rq \in BOOLEAN :                 \* add a field (optional: compatible; required: breaking)
-                ~HasId(fs, id) /\ (rq => st # "V") /\ SetStruct(f, st, Append(fs, Fd(id, "n" \o ToString(id), ty, rq)))
+                ~HasId(fs, id) /\ (rq => st # "V") /\ TypeKnown(f, ty) /\ SetStruct(f, st, Append(fs, Fd(id, "n" \o ToString(id), ty, rq)))
           \/ \E i \in 1..Len(fs) : ~fs[i].req /\ st # "V" /\ SetStruct(f, st, [fs EXCEPT ![i].req = TRUE])    \* optional -> required
           \/ \E i \in 1..Len(fs) : fs[i].req /\ SetStruct(f, st, [fs EXCEPT ![i].req = FALSE])    \* required -> optional
-          \/ \E i \in 1..Len(fs), ty \in Types : ty # fs[i].ty /\ SetStruct(f, st, [fs EXCEPT ![i].ty = ty])   \* type changed
+          \/ \E i \in 1..Len(fs), ty \in Types : ty # fs[i].ty /\ TypeKnown(f, ty) /\ SetStruct(f, st, [fs EXCEPT ![i].ty = ty])   \* type changed
           \/ \E i \in 1..Len(fs) : SetStruct(f, st, SubSeq(fs, 1, i - 1) \o SubSeq(fs, i + 1, Len(fs)))           \* field removed
           \/ Len(fs) >= 2 /\ SetStruct(f, st, << fs[Len(fs)] >> \o SubSeq(fs, 1, Len(fs) - 1))                    \* fields reordered
           \/ st \notin {"R", "V", "E"} /\ new' = [new EXCEPT ![f].structs = KeepKeys(@, DOMAIN @ \ {st})]                          \* struct deleted
